@@ -2014,7 +2014,7 @@ func c12Model(c *c12Case, eps float64, o *core.Obs, arcsNative bool) ([]c12Prim,
 			ctx.SetDashes(offset, dashes...)
 			ctx.DrawPath(0, 0, p)
 			if len(rec.calls) == 1 {
-				canon = rec.calls[0].Style.Dashes
+				canon, offset = rec.calls[0].Style.Dashes, rec.calls[0].Style.DashOffset // the offset belongs to the canonical pattern
 				strokeOK = rec.calls[0].Style.HasStroke()
 			} else {
 				strokeOK = false
